@@ -381,36 +381,74 @@ def batch_facts(prog: Program, r: DispatcherRoles) -> Tuple[Dict[str, Any], List
             problems.append(('ORDER-MAP', f'{j} joins the element handlers', f.node.lineno,
                              f'{j} does not return results in argument order; asyncio.gather does'))
     facts['joins'] = sorted(set(joins))
-    # FILTER-UNSET: the filter applied to element results drops exactly UNSET
+    # FILTER-UNSET: the filter applied to element results drops exactly UNSET.  The element results are followed from the
+    # batch-response constructor's *argument back to the handler calls through every list-building stage (comprehension or
+    # append-loop alike); the conditions under which a stage keeps an element are its filters.
+    from ..flow import Flow
+    fl = Flow(cfg)
     filt = []
-    for n in cfg.stmt_nodes():
-        if not (n.id in batch_nodes or any(n.id in cfg.reachable(cfg.nodes[b]) for b in batch_nodes)):
-            continue
-        for frag in node_exprs(n):
-            for x in walk_no_defs(frag):
-                if isinstance(x, (ast.GeneratorExp, ast.ListComp)):
-                    for gen in x.generators:
-                        for cond in gen.ifs:
-                            tgt = dotted(gen.target)
-                            ckd = classify_cond(prog, f, cond)
-                            if ckd.subject != tgt:
-                                continue
-                            if ckd.kind == 'is-unset' and ckd.negated:
-                                filt.append('drops-unset')
-                            elif ckd.kind == 'truthy' and not ckd.negated:
-                                # valid while UnsetType is falsy and Response is always truthy
-                                it = Interp(prog)
-                                if it.always_truthy(V20 + '.Response') and _unset_is_falsy(prog):
+    stages = _result_pipeline(prog, f, cfg, fl, r, sc, ty)
+    if stages is not None:
+        for sq in stages:
+            subj_ok = {dotted(sq.target)} if sq.target is not None else set()
+            for al in sq.elt:
+                subj_ok |= set(al.names)
+                d_ = dotted(al.expr)
+                if d_:
+                    subj_ok.add(d_)
+            for cond, pol in sq.filters:
+                ckd = classify_cond(prog, f, cond)
+                line = getattr(cond, 'lineno', f.node.lineno)
+                if ckd.subject is None or ckd.subject not in subj_ok:
+                    if isinstance(cond, ast.Constant):
+                        problems.append(('FILTER-UNSET', 'several conditional appends of element results', line,
+                                         'element responses are collected under several different conditions'))
+                    continue
+                if ckd.kind == 'is-unset' and ckd.negated == pol:
+                    filt.append('drops-unset')
+                elif ckd.kind == 'truthy' and (not ckd.negated) == pol:
+                    it = Interp(prog)
+                    if it.always_truthy(V20 + '.Response') and _unset_is_falsy(prog):
+                        filt.append('drops-unset')
+                    else:
+                        problems.append(('FILTER-UNSET', 'truthiness filter on element results', line,
+                                         f'`if {norm(cond)}` drops responses whenever Response can be falsy '
+                                         f'(Response defines __bool__/__len__) or keeps UNSET (UnsetType no longer falsy)'))
+                else:
+                    shown = norm(cond) if pol else f'not ({norm(cond)})'
+                    problems.append(('FILTER-UNSET', f'filter `{shown[:50]}` on element results', line,
+                                     f'element responses are kept only when `{shown}`; only the UNSET results of notifications may be dropped'))
+    else:
+        for n in cfg.stmt_nodes():
+            if not (n.id in batch_nodes or any(n.id in cfg.reachable(cfg.nodes[b]) for b in batch_nodes)):
+                continue
+            for frag in node_exprs(n):
+                for x in walk_no_defs(frag):
+                    if isinstance(x, (ast.GeneratorExp, ast.ListComp)):
+                        for gen in x.generators:
+                            for cond in gen.ifs:
+                                tgt = dotted(gen.target)
+                                ckd = classify_cond(prog, f, cond)
+                                if ckd.subject != tgt:
+                                    continue
+                                if ckd.kind == 'is-unset' and ckd.negated:
                                     filt.append('drops-unset')
+                                elif ckd.kind == 'truthy' and not ckd.negated:
+                                    it = Interp(prog)
+                                    if it.always_truthy(V20 + '.Response') and _unset_is_falsy(prog):
+                                        filt.append('drops-unset')
+                                    else:
+                                        problems.append(('FILTER-UNSET', 'truthiness filter on element results', n.line,
+                                                         f'`if {norm(cond)}` drops responses whenever Response can be falsy '
+                                                         f'(Response defines __bool__/__len__) or keeps UNSET (UnsetType no longer falsy)'))
                                 else:
-                                    problems.append(('FILTER-UNSET', 'truthiness filter on element results', n.line,
-                                                     f'`if {norm(cond)}` drops responses whenever Response can be falsy '
-                                                     f'(Response defines __bool__/__len__) or keeps UNSET (UnsetType no longer falsy)'))
-                            else:
-                                problems.append(('FILTER-UNSET', f'filter `{norm(cond)[:50]}` on element results', n.line,
-                                                 f'element responses are filtered by `{norm(cond)}`; only the UNSET results of notifications may be dropped'))
+                                    problems.append(('FILTER-UNSET', f'filter `{norm(cond)[:50]}` on element results', n.line,
+                                                     f'element responses are filtered by `{norm(cond)}`; only the UNSET results of notifications may be dropped'))
+        if not filt and not any(p[0] == 'FILTER-UNSET' for p in problems):
+            raise AnalysisError(f'{f.qualname}: the element results cannot be followed from the handler calls to the batch response '
+                                f'(no recognised list-building form)')
     facts['filter'] = sorted(set(filt))
-    if not filt:
+    if not filt and stages is not None:
         problems.append(('FILTER-UNSET', 'UNSET results are not filtered out', f.node.lineno,
                          'the UNSET results of notifications are not removed before the batch response is built'))
     # REJECT-BEFORE-RUN
@@ -447,6 +485,50 @@ def batch_facts(prog: Program, r: DispatcherRoles) -> Tuple[Dict[str, Any], List
     for n, c in single_calls:
         pass
     return facts, problems
+
+
+def _result_pipeline(prog: Program, f: FuncInfo, cfg: CFG, fl, r: DispatcherRoles, sc, ty) -> Optional[list]:
+    """List-building stages between the per-element handler calls and the batch-response constructor (sink first).
+    None if the chain cannot be followed."""
+    from ..model import ClassInfo
+    sink = None
+    for n in cfg.stmt_nodes():
+        for call in calls_in(n):
+            stars = [a.value for a in call.args if isinstance(a, ast.Starred)]
+            if not stars:
+                continue
+            tg = ty.callees(call, sc)
+            if any(k == 'ctor' and isinstance(o, ClassInfo) and o.qualname == V20 + '.BatchResponse' for k, o in tg):
+                sink = (n, stars[0])
+    if sink is None:
+        return None
+    out = []
+    seen = 0
+
+    def has_slot_call(e: ast.AST) -> bool:
+        return any(isinstance(x, ast.Call) and dotted(x.func) == f'self.{r.slot}' for x in ast.walk(e))
+
+    def go(n: Node, e: ast.expr, depth: int) -> bool:
+        """True iff every way `e` is built leads back to the handler calls."""
+        if depth > 5:
+            return False
+        sqs = fl.seq(n, e)
+        if not sqs:
+            return False
+        ok_all = True
+        for sq in sqs:
+            if sq.kind != 'iter':
+                ok_all = False
+                continue
+            out.append(sq)
+            if any(has_slot_call(al.expr) for al in sq.elt):
+                continue            # reached the stage that runs the handler
+            if not go(sq.node or n, sq.iter, depth + 1):
+                ok_all = False
+        return ok_all
+    if not go(sink[0], sink[1], 0):
+        return None
+    return out
 
 
 def _limit_unset_path(cfg: CFG, prog: Program, f: FuncInfo, sz: Node, n: Node) -> bool:
